@@ -519,18 +519,23 @@ fn atomic_roundtrip<A: Copy, C: Bytes<A>>(c: &C, addr: A, size: usize, raw: *con
 }
 
 fn exec_atomic(case: &[Tok]) -> Vec<Tok> {
-    if case.len() != 5 {
+    if case.len() != 5 && case.len() != 6 {
         return bad();
     }
     let (ep, size, goff, len) = (case[1].u(), case[2].u() as usize, case[3].u(), case[4].u() as usize);
-    if ![1, 2, 4, 8].contains(&size) || ep > 3 || len > GSIZE {
+    // optional 6th token: the slice itself starts `skew` bytes after the (page-aligned) arena base
+    let skew = if case.len() == 6 { case[5].u() as usize } else { 0 };
+    if ![1, 2, 4, 8].contains(&size) || ep > 3 || len > GSIZE - 8 * (skew != 0) as usize || skew >= 8 {
+        return bad();
+    }
+    if skew != 0 && ep != 0 && ep != 3 {
         return bad();
     }
     if (ep == 1 || ep == 2) && (len != GSIZE || goff >= 1 << 32) {
         return bad();
     }
     WORLD.with(|w| {
-        let gbase = if ep == 0 || ep == 3 { w.arena } else { w.gm_host };
+        let gbase = if ep == 0 || ep == 3 { unsafe { w.arena.add(skew) } } else { w.gm_host };
         let inb = (goff as u128) + (size as u128) <= len as u128;
         let raw: *const u8 = if inb { unsafe { gbase.add(goff as usize) as *const u8 } } else { gbase as *const u8 };
         if inb {
@@ -538,8 +543,8 @@ fn exec_atomic(case: &[Tok]) -> Vec<Tok> {
         }
         let r = util::catch(|| match ep {
             0 => {
-                // SAFETY: len <= GSIZE
-                let vs = unsafe { VolatileSlice::new(w.arena, len) };
+                // SAFETY: skew + len <= GSIZE
+                let vs = unsafe { VolatileSlice::new(gbase, len) };
                 let (st, rt) = atomic_roundtrip(&vs, goff as usize, size, raw, &|e| verr(e));
                 (st, 0u64, rt)
             }
@@ -553,13 +558,13 @@ fn exec_atomic(case: &[Tok]) -> Vec<Tok> {
                 (st, 0, rt)
             }
             _ => {
-                let vs = unsafe { VolatileSlice::new(w.arena, len) };
+                let vs = unsafe { VolatileSlice::new(gbase, len) };
                 macro_rules! refof {
                     ($a:ty, $t:ty) => {
                         match vs.get_atomic_ref::<$a>(goff as usize) {
                             Err(e) => (verr(&e), 0u64, 0u64),
                             Ok(r) => {
-                                let off = (r as *const $a as u64).wrapping_sub(w.arena as u64).wrapping_sub(goff);
+                                let off = (r as *const $a as u64).wrapping_sub(gbase as u64).wrapping_sub(goff);
                                 let val = 0xf1e2_d3c4_b5a6_9788u64 as $t;
                                 r.store(val, Ordering::SeqCst);
                                 let seen = unsafe { snap(raw, size) };
@@ -602,6 +607,14 @@ fn gen_atomic(rng: &mut Rng, tier: Tier, emit: &mut dyn FnMut(Vec<Tok>)) {
                 for g in util::boundary_u64(GSIZE as u64) {
                     emit(vec![n(mode), n(ep), us(size), n(g), us(GSIZE)]);
                 }
+                // containers that start at a skewed address: what counts is the alignment of the ADDRESS
+                // (skew + offset), an offset that is a multiple of the width is not enough
+                for skew in 1..8usize {
+                    for g in 0..24usize {
+                        emit(vec![n(mode), n(ep), us(size), us(g), us(64), us(skew)]);
+                    }
+                    emit(vec![n(mode), n(ep), us(size), us(PAGE - skew), us(2 * PAGE), us(skew)]);
+                }
             }
         }
     }
@@ -611,7 +624,11 @@ fn gen_atomic(rng: &mut Rng, tier: Tier, emit: &mut dyn FnMut(Vec<Tok>)) {
         let size = *rng.pick(&[1usize, 2, 4, 8]);
         let len = if ep == 0 || ep == 3 { rng.below(GSIZE as u64 + 1) as usize } else { GSIZE };
         let goff = rng.below(len as u64 + 12);
-        emit(vec![n(mode), n(ep), us(size), n(goff), us(len)]);
+        if (ep == 0 || ep == 3) && len + 8 <= GSIZE && rng.chance(1, 3) {
+            emit(vec![n(mode), n(ep), us(size), n(goff), us(len), n(1 + rng.below(7))]);
+        } else {
+            emit(vec![n(mode), n(ep), us(size), n(goff), us(len)]);
+        }
     }
 }
 
